@@ -13,6 +13,11 @@ def how(own):
     if rc == 2:
         und = [l for l in lines if l.startswith('UNDECIDED')]
         return 'not decided (exit 2): ' + (re.sub(r'^UNDECIDED property=C\d\d ', '', und[0])[:110] if und else '')
+    conf = [l for l in lines if 'failed obligation (not a verdict by itself' in l]
+    if conf and rc == 1:
+        m = re.search(r'\[([^\]]+)\]', conf[0])
+        tag = (m.group(1).split() or ['?'])[0] if m else '?'
+        return 'bounded witness + named obligation `%s` (the changed text uses new calls, a soft clause, or a clause of another property: the failed obligation alone is not a verdict)' % tag
     fo = [l for l in lines if 'failed obligation' in l]
     und = [l for l in lines if l.startswith('UNDECIDED')]
     bw = any('bounded_witness' in l or 'bounded_search' in l for l in lines)
@@ -58,6 +63,8 @@ def seed_table():
         rows.append('| %s | %s | %s | %s |' % (name, rnd, (meta.get('summary') or '').replace('|', '/').replace('\n', ' ')[:115], h))
         if h.startswith('failed'):
             stats['obligation'] += 1
+        elif h.startswith('bounded witness + named'):
+            stats['both'] = stats.get('both', 0) + 1
         elif h.startswith('bounded'):
             stats['bounded'] += 1
         elif h.startswith('not decided'):
@@ -89,7 +96,7 @@ if __name__ == '__main__':
     s = open(p).read()
     t, st = seed_table()
     b = benign_table()
-    s = re.sub(r'<!-- SEEDTABLE -->.*?<!-- /SEEDTABLE -->', lambda m: '<!-- SEEDTABLE -->\n' + t + '\n\nTotals: %d by a named failed obligation, %d by the bounded witness search, %d not decided (exit 2), %d missed (exit 0).\n<!-- /SEEDTABLE -->' % (st['obligation'], st['bounded'], st['undecided'], st['missed']), s, flags=re.S)
+    s = re.sub(r'<!-- SEEDTABLE -->.*?<!-- /SEEDTABLE -->', lambda m: '<!-- SEEDTABLE -->\n' + t + '\n\nTotals: %d by a named failed obligation alone, %d by a named failed obligation confirmed by a concrete witness, %d by the bounded witness search alone, %d not decided (exit 2), %d missed (exit 0).\n<!-- /SEEDTABLE -->' % (st['obligation'], st.get('both', 0), st['bounded'], st['undecided'], st['missed']), s, flags=re.S)
     s = re.sub(r'<!-- BENIGNSTATS -->.*?<!-- /BENIGNSTATS -->', lambda m: '<!-- BENIGNSTATS -->%d refactorings, %d check runs: %d exit 0, %d exit 2 (undecided), %d exit 1%s<!-- /BENIGNSTATS -->' % (b['refactorings'], b['runs'], b['exit0'], b['exit2'], b['exit1'], (' (' + ', '.join(b['alarms']) + ')') if b['alarms'] else ''), s, flags=re.S)
     open(p, 'w').write(s)
     print(st, b)
